@@ -22,7 +22,7 @@ let () =
   let hist_meta = ref "" in
   let step_no = ref 0 in
   let pre_lines = ref [] and cur_st = ref [] in
-  let cur_op = ref None and orc = ref [] and res = ref ("", "") and xs = ref [] and hs = ref [] and gen = ref "" and fault = ref false and qr = ref [] and indep = ref "" and qpage = ref "" in
+  let cur_op = ref None and orc = ref [] and res = ref ("", "") and xs = ref [] and hs = ref [] and gen = ref "" and fault = ref false and qr = ref [] and indep = ref "" and qpage = ref "" and order = ref "" in
   let mismatches = ref 0 and checkfails = ref 0 in
   let report_mismatch proj m i =
     incr mismatches;
@@ -106,6 +106,24 @@ let () =
                 Printf.printf "CHECK hist=%s step=%d prop=C19 checker=independence op=[%s] detail=[the verdict changes when the signer's bids and allow-list entries in the other auctions are deleted: real=%s %s] %s\n" !hist !step_no op_line iclass !indep !hist_meta
               end
             end;
+            (* C17: the allocation hook of auction A is offered before any coin leaves A's selling or paying escrow
+               in this operation ("before the change it announces is committed") *)
+            if !order <> "" then begin
+              let toks = List.tl (split !order) in
+              let rec scan seen = function
+                | [] -> None
+                | tk :: rest ->
+                    if starts_with "H9:" tk then begin
+                      let a = String.sub tk 3 (String.length tk - 3) in
+                      if List.mem ("X:es" ^ a) seen || List.mem ("X:ep" ^ a) seen then Some a else scan (tk :: seen) rest
+                    end else scan (tk :: seen) rest in
+              bump "order_lines";
+              match scan [] toks with
+              | Some a ->
+                  incr checkfails;
+                  Printf.printf "CHECK hist=%s step=%d prop=C17 checker=hook_before_transfers op=[%s] detail=[BeforeSellingCoinsAllocated of auction %s was called after coins had already left its escrow: %s] %s\n" !hist !step_no op_line a !order !hist_meta
+              | None -> ()
+            end;
             let tags = Checks.nontrivial ~pre ~op ~iclass ~xfers:pxs ~trace:phs ~post:post_impl ~fault:!fault in
             let tags = if !indep <> "" then "indep_probe" :: tags else tags in
             List.iter (fun k -> bump ("nt." ^ k)) tags;
@@ -130,7 +148,7 @@ let () =
         end
       end
       else if starts_with "OP " l then begin
-        cur_op := Some l; orc := []; res := ("", ""); xs := []; hs := []; gen := ""; fault := false; qr := []; indep := ""; qpage := ""
+        cur_op := Some l; orc := []; res := ("", ""); xs := []; hs := []; gen := ""; fault := false; qr := []; indep := ""; qpage := ""; order := ""
       end
       else if starts_with "ORC " l then orc := parse_orc l :: !orc
       else if starts_with "RES " l then begin
@@ -145,6 +163,7 @@ let () =
       else if starts_with "QR " l then qr := l :: !qr
       else if starts_with "INDEP " l then indep := l
       else if starts_with "QPAGE " l then qpage := l
+      else if starts_with "ORDER " l then order := l
       else if l = "END" then begin
         process ();
         if !cur_op <> None then incr step_no;
